@@ -22,6 +22,7 @@ type Cfg struct {
 	Encrypt  bool   `json:",omitempty"`
 	NoVerify bool   `json:",omitempty"` // GossipVerifyIncoming off
 	PV       uint8  `json:",omitempty"`
+	Skip     bool   `json:",omitempty"` // SkipInboundLabelCheck: inbound traffic carries no header (an outer layer removed it); the label is still the associated data
 }
 
 var KeyA = []byte("0123456789abcdef")
@@ -44,7 +45,7 @@ func (attHandler) OnStream(_ *simnet.Endpoint, _ string, c *simnet.Conn) { c.Clo
 
 // NewWorld builds the node and its view. Must run in a bubble.
 func NewWorld(seed uint64, cfg Cfg) (*World, error) {
-	conf := puppet.NodeConf{Name: "n0", IP: "10.0.0.1", Port: 7946, IndirectChecks: 1, Label: cfg.Label, ProtocolVersion: cfg.PV,
+	conf := puppet.NodeConf{Name: "n0", IP: "10.0.0.1", Port: 7946, IndirectChecks: 1, Label: cfg.Label, SkipLabel: cfg.Skip, ProtocolVersion: cfg.PV,
 		NoVerifyIn: cfg.NoVerify, GossipIntervalMs: 100, ProbeIntervalMs: 1000, ProbeTimeoutMs: 300, TCPTimeoutMs: 2000, Meta: []byte("n0meta"), WithPing: true}
 	if cfg.Encrypt {
 		conf.Keys = [][]byte{KeyA, KeyB}
